@@ -29,6 +29,23 @@ Theorem C01_table : schema_le Generated.schema spec_schema = true.
 Proof. exact table_le_code_spec. Qed.
 Print Assumptions C01_table.
 
+(* Every validator the frozen table lists for a class is still attached to that class, under the same name and
+   mode (":pre", ":each"): a rule that is REMOVED from the code breaks this obligation even before an input that
+   needs it is generated.  (New validators are allowed: the repairs of 0.4 added several.) *)
+Definition validators_present (live spec : schema_t) : bool :=
+  forallb (fun nc => match lookup_cls live (fst nc) with
+                     | Some c => forallb (fun v => existsb (String.eqb v) (c_validators c)) (c_validators (snd nc))
+                     | None => false
+                     end) spec.
+
+Theorem C01_validators_present : validators_present Generated.schema spec_schema = true.
+Proof. vm_compute. reflexivity. Qed.
+Print Assumptions C01_validators_present.
+
+Example C01_validators_present_nonvacuous :
+  exists c, lookup_cls spec_schema "StepTemplate" = Some c /\ c_validators c <> [].
+Proof. eexists. split; [vm_compute; reflexivity|discriminate]. Qed.
+
 Theorem C01_structural : forall classify j v,
   decode_job classify j = Ok v -> decode_job_on spec_schema classify j = Ok v.
 Proof. exact structural_code_spec. Qed.
